@@ -2,9 +2,9 @@ ID = "C17"
 PROPS_FILE = "props/C17.v"
 COQ_TARGETS = ["props/C17.vo", "judge/J17.vo", "model/Pack.vo"]
 JUDGE = ("judge.J17", "J17.judge")
-JUDGE_IMPORTS = ("From NSQV Require Import gen.AdminRoutes model.Admin.",)
+JUDGE_IMPORTS = ("From NSQV Require Import gen.AdminRoutes model.Admin model.AdminCfg.",)
 JUDGE_SCOPE = "N_scope"
-REPO_BINS = []
+REPO_BINS = [("nsqadmin", "apps/nsqadmin", "")]
 RULE = ("requests to the REAL nsqadmin (package nsqadmin in-process: real listener for requests sent as hand-written HTTP/1.1 from several 127/8 "
         "source addresses, the real router+handlers with a synthetic RemoteAddr / raw req.Header otherwise) in front of recording stub nsqlookupd/nsqd "
         "upstreams: (1) every state-changing route x 19 identity classes (absent, empty, admin, second admin, non-admin, case, upper, leading/trailing "
@@ -13,18 +13,29 @@ RULE = ("requests to the REAL nsqadmin (package nsqadmin in-process: real listen
         "wrong type, refused) nsqlookupds and nsqds, failing POSTs, lookupd and direct-nsqd mode; (2) every route pattern (plus unknown paths) x 7 methods "
         "with and without identity; (3) /config GET/PUT x 30 client address forms (IPv4, IPv6, IPv4-mapped, boundary addresses, unparsable) x 17 CIDRs "
         "(none, /0 /1 /8 /16 /24 /30 /31 /32, IPv6, IPv4-mapped IPv6) x option / body classes, the option read back before and after from an allowed address; "
-        "(4) random state-changing requests.  Non-trivial = answered 403, caused a POST, swapped an option or went through the /config gate; distinct = distinct terms.")
+        "(4) random state-changing requests; (5) CONFIGURATION PATHS: the real apps/nsqadmin binary started as an operator starts it, each of the five options the property "
+        "depends on (admin list, ACL header name, /config CIDR, nsqlookupd addresses, nsqd addresses) x {command line (repeated flag), --config file with the key of "
+        "contrib/nsqadmin.cfg.example (array / comma-separated string), both with different values (the command line must win), default}, the other options on random paths, "
+        "one launch with everything in the file; per launch every state-changing route x {absent/empty/non-admin, alice, bob or a look-alike} over real connections, /config GET/PUT "
+        "from loopback addresses inside and outside the CIDR in force, GET /config/<documented key>, read-only views; the case states the launch as written, not the configuration.  "
+        "Non-trivial = answered 403, caused a POST, swapped an option, went through the /config gate or was not answered; distinct = distinct terms.")
 TRUSTED = [
     "modelled, not verified: net/http request parsing (header canonicalisation and optional-white-space trimming are modelled from net/textproto), "
     "httprouter's matching (modelled: exact method+pattern, 405 on a known path, OPTIONS 200, 404), encoding/json decoding of the request body "
     "(the case states what the decoder yields), net.ParseCIDR / net.ParseIP text parsing (the case carries the numbers; IPNet.Contains itself is modelled)",
     "the stub nsqlookupd/nsqd servers of /verif/harness/cmd/admindrive/stubs.go (they record method, path and decoded query of every request they receive)",
     "no hook in /repo is needed for C17: nsqadmin.NewHTTPServer is exported and gives the real router for requests with a synthetic RemoteAddr",
+    "configuration paths: flag.FlagSet parsing, BurntSushi/toml decoding of the --config file (the case states the keys and values written), go-options' reflection "
+    "(modelled: flag over file over flag default, `cfg` tag or underscored flag name, string<->[]string coercions, panic on an undefined flag); net.ResolveTCPAddr of the addresses",
 ]
 ASSUMPTIONS = [
     "an admin list that itself contains the empty string makes the absent header an admin identity (isAuthorizedAdminRequest compares with req.Header.Get's \"\"); such a configuration is not generated",
     "requests that reach nsqadmin over a connection have optional white space around the header value removed by net/http before the comparison (\" alice\" on the wire IS alice); modelled, and exercised both ways",
     "notifyAdminAction (a POST to --notification-http-endpoint) is not an nsqd/nsqlookupd request and is not modelled here (its crash on an unreachable endpoint, F13, is replayed by C18's hostile stream)",
+    "configuration paths: only valid launches are generated (exactly one of the two address lists on its effective path, a CIDR that parses or is empty, no empty admin name: admin_users = \"\" "
+    "would make go-options produce the list [\"\"]); a launch that is not a valid configuration promises nothing (the model says nsqadmin does not start, which is compared); `deprecated` struct "
+    "tags (none today) are not modelled: a field that gets one makes the model refuse the table",
+    "what /config holds after a PUT to the launched binary is read back over a connection from a loopback address inside the CIDR in force; when that CIDR holds no 127/8 address only GETs are sent",
 ]
 LEVEL_TEXT = ("Machine-checked proof (Coq 8.16.1). The nsqadmin route table, each handler's ordered event summary (admin guard recognised only in its exact "
               "shape `if !s.isAuthorizedAdminRequest(req) { return 403 }` as a top-level statement, the /config CIDR test, mutating vs read-only clusterinfo calls "
@@ -34,7 +45,11 @@ LEVEL_TEXT = ("Machine-checked proof (Coq 8.16.1). The nsqadmin route table, eac
               "(absent = empty; look-alikes are just other strings) not in it, is answered 403 with NO upstream request and nothing swapped; /config outside the allowed CIDR "
               "likewise and the CIDR test is exactly a bit-prefix comparison (IPv4, IPv6, IPv4-mapped); read-only routes never answer 403; with an admin identity the handler "
               "behaves as with no admin list, and each action POSTs exactly to every nsqlookupd and to the duplicate-free union of the producers the answering upstreams list "
-              "(502 and no POST iff the producer look-up got no answer). Tied to the code by the generated tables and by differential correspondence on the real nsqadmin.")
+              "(502 and no POST iff the producer look-up got no answer). The configuration itself is quantified over: for EVERY launch (any command-line arguments, any decoded config file) options.Resolve over the regenerated struct tags of "
+              "nsqadmin.Options, flag set of apps/nsqadmin and NewOptions defaults yields exactly the documented configuration (command line over file over default, under the flag names and the "
+              "keys of contrib/nsqadmin.cfg.example), nsqadmin starts iff exactly one address list is given and the CIDR parses, and the guarded / allowed / CIDR theorems hold for the admin list, "
+              "header name and CIDR AS THE OPERATOR WROTE THEM on any path; every documented key is the key of exactly one option of the documented shape and every `flag` tag names a defined flag. "
+              "Tied to the code by the generated tables and by differential correspondence on the real nsqadmin (in-process and the real binary started from flags / config files).")
 LEVEL_NOTE = ("Trusted: Coq kernel + vm_compute (finite table checks); the gotables translator (go/ast; it recognises shapes and call order, it does not evaluate Go); "
               "hand-written handler step lists whose projection must equal the regenerated summaries; the correspondence is sampled, the theorems are not. "
               "Partial: HTTP parsing, routing internals and JSON decoding are the Go standard library / httprouter (modelled at their interface); the order of upstream "
